@@ -23,7 +23,7 @@ O(v, log) == [v |-> v, log |-> log]
 
 \* truth of one element of an AND/OR argument: "t", "f", "skip" (blank), "open" (text), or an error record
 ElemTruth(x) == CASE x.t = "err" -> "err" [] x.t = "blank" -> "skip" [] x.t = "bool" -> (IF x.v THEN "t" ELSE "f")
-                  [] x.t = "num" -> (IF x.n # 0 THEN "t" ELSE "f") [] x.t = "date" -> "t" [] OTHER -> "open"
+                  [] x.t = "num" -> (IF x.n # 0 THEN "t" ELSE "f") [] x.t = "date" -> "t" [] x.t = "float" -> "t" [] OTHER -> "open"
 Elems(v) == IF v.t = "arr" THEN ArrElems(v) ELSE <<v>>
 
 RECURSIVE Outs(_, _)
